@@ -53,6 +53,7 @@ def run(ctx):
                 d = d[:U.toolkit().RxMsg().HDR_LEN + rng.choice([0, 1, 2, 147, 149, 151, 296, 298, 592, 594, 740, 742])] if kind == "rx" else d[:6 + rng.choice([0, 1, 147, 149, 443, 445, 447])]
             dgrams.append((kind, d, None))
     parse_obs = [U.do_parse(kind, d) for kind, d, _ in dgrams]
+    U.reuse_check(ctx, dgrams, parse_obs, "c01-parse-history")
     didx = list(range(len(dgrams)))
     ctx.correspond("parse_msg", "Trxd", didx,
                    lambda j: "%s %s" % ("w_trxd_tx_parse" if dgrams[j][0] == "tx" else "w_trxd_rx_parse", " ".join(map(str, dgrams[j][1]))),
